@@ -109,6 +109,7 @@ class Env:
         self.disp.rpc_call = rpc_call
         self.live: dict[tuple, str] = {}
         self.past: dict[tuple, str] = {}
+        self.back: dict[tuple, str] = {}       # live units that were connected before with no required roles
         self.runs: dict[tuple, str] = {}
         self.setup_exceptions = 0
         self.lsp_reference: dict = {}
@@ -127,7 +128,7 @@ class Env:
         finally:
             loop.shutdown()
 
-    async def _unit(self, prefix, R, stop_and_disconnect):
+    async def _unit(self, prefix, R, stop_and_disconnect, earlier_session_without_roles=False):
         import logging as _l
         from unittest.mock import AsyncMock, Mock
         import openpectus.protocol.engine_messages as EM
@@ -135,6 +136,21 @@ class Env:
         from openpectus import __version__
         d = self.disp
         mk = marker_of(prefix, R)
+        if earlier_session_without_roles:
+            # the same engine was connected before with a UOD that required no roles: its RecentEngine row says []
+            reply = await d._register_handler(EM.RegisterEngineMsg(
+                computer_name=f"pc{prefix}{key_of(R)}", uod_name="uod", uod_author_name=f"author {mk}", uod_author_email="a@b",
+                uod_filename="uod.py", location=f"loc {mk}", engine_version=__version__))
+            eid0 = reply.engine_id
+            d._engine_id_channel_map[eid0] = Mock(name="engine-channel", close=AsyncMock())
+            await d._connect_handler(eid0)
+            m0 = EM.UodInfoMsg(readings=[], commands=[], uod_definition=PM.UodDefinition(commands=[], system_commands=[], tags=[]),
+                               plot_configuration=PM.PlotConfiguration.empty(), hardware_str=f"hw {mk}", required_roles=set(),
+                               data_log_interval_seconds=1.0)
+            m0.engine_id = eid0
+            await d.dispatch_message(m0)
+            del d._engine_id_channel_map[eid0]
+            await d._disconnect_handler(eid0)
         reply = await d._register_handler(EM.RegisterEngineMsg(
             computer_name=f"pc{prefix}{key_of(R)}", uod_name="uod", uod_author_name=f"author {mk}", uod_author_email="a@b",
             uod_filename="uod.py", location=f"loc {mk}", engine_version=__version__))
@@ -197,6 +213,7 @@ class Env:
         for R in self.role_sets:
             self.live[R], _ = await self._unit("l", R, False)
             self.past[R], self.runs[R] = await self._unit("p", R, True)
+            self.back[R], _ = await self._unit("b", R, False, earlier_session_without_roles=True)
 
     # -- requests -------------------------------------------------------------------------------------------
     def current_method_version(self, unit_id) -> int:
@@ -397,8 +414,10 @@ def explore(env: Env, only_route=None):
                     viol.append((sig, items[0][0] + extra, items[0][1]))
         elif spec["kind"] == "listing":
             stats["listing_routes"] += 1
-            groups = {"units+recent_engines": [("live_unit", env.live, "l", True), ("recent_engine", env.past, "p", True)],
-                      "units": [("live_unit", env.live, "l", True), ("recent_engine", env.past, "p", False)],
+            groups = {"units+recent_engines": [("live_unit", env.live, "l", True), ("recent_engine", env.past, "p", True),
+                                               ("live_unit", env.back, "b", True)],
+                      "units": [("live_unit", env.live, "l", True), ("recent_engine", env.past, "p", False),
+                                ("live_unit", env.back, "b", True)],
                       "runs": [("recent_run", env.runs, "p", True)]}[spec["of"]]
             for U in env.role_sets:
                 res = env.request(dict(build=lambda e, i, _p=route[1]: dict(method="GET", url=_p)), "", U)
